@@ -1271,3 +1271,87 @@ package yqlib
 //@   loop 2:
 //@     invariant 0 <= i && i <= len(node.Content) && len(o.Content) == len(node.Content) && freshSlice(o.Content) && sameLook(o, node) && o.Kind == SequenceNode
 //@     invariant forall(j, 0, i, o.Content[j] != nil && fresh(o.Content[j]) && sameLook(o.Content[j], node.Content[j]))
+
+// ---------------------------------------------------------------------------------------------
+// candidate_node.go / candidiate_node_json.go: the scalar tables between the YAML and JSON data models (C06)
+
+//@ func (*CandidateNode).GetValueRep
+//@   props C06 C11
+//@   requires n != nil
+//@   ensures @integers-exact {C06} implies(n.Tag == "!!int", (result1 == nil) == intOk(n.Value) && implies(result1 == nil, result0 == iface(int64(intOf(n.Value)))))
+//@   ensures @null {C06} implies(n.Tag == "!!null", result1 == nil && result0 == nil)
+//@   ensures @booleans {C06} implies(n.Tag == "!!bool", result1 == nil && result0 == iface(truthyNode(n) && true))
+//@   ensures @strings-verbatim {C06} implies(coreTagged(n) && n.Tag != "!!int" && n.Tag != "!!float" && n.Tag != "!!bool" && n.Tag != "!!null", result1 == nil && result0 == iface(n.Value))
+
+//@ func (*CandidateNode).setScalarFromJson
+//@   props C06 C11
+//@   requires o != nil
+//@   requires @no-float32 !istype(value, float32) // the float32 case asserts float64 and would panic; the JSON library yields float64 only
+//@   modifies o.Kind, o.Tag, o.Value
+//@   ensures @null {C06} implies(value == nil, result == nil && o.Kind == ScalarNode && o.Tag == "!!null" && o.Value == "null")
+//@   ensures @strings-verbatim {C06} implies(istype(value, string), result == nil && o.Kind == ScalarNode && o.Tag == "!!str" && iface(o.Value) == value)
+
+// ---------------------------------------------------------------------------------------------
+// operator_multiply.go: deep merge (C04) — the mechanism: merge into a fresh copy of the left operand, one
+// assignment per node of the right operand, with the assignment operator the flags select.
+
+//@ func getComments
+//@   props C04 C11
+//@   requires lhs != nil && rhs != nil
+//@   ensures @left-comments-win-when-present {C04} headComment == ite(lhs.HeadComment != "" || lhs.LeadingContent != "", lhs.HeadComment, rhs.HeadComment) && leadingContent == ite(lhs.HeadComment != "" || lhs.LeadingContent != "", lhs.LeadingContent, rhs.LeadingContent) && footComment == ite(lhs.FootComment != "", lhs.FootComment, rhs.FootComment)
+
+//@ func recursiveDecent
+//@   trusted
+//@   modifies results.items // appends every node under the context's nodes, in document order (assumed)
+//@   ensures implies(result == nil, nodeList(results))
+
+//@ func createTraversalTree
+//@   trusted
+//@   modifies \nothing
+//@   ensures result != nil && fresh(result)
+
+//@ func multiplyScalars
+//@   props C11
+//@   requires lhs != nil && rhs != nil
+//@   ensures implies(result1 == nil, result0 != nil && fresh(result0))
+
+//@ func multiplyFloats
+//@   props C11
+//@   requires lhs != nil && rhs != nil
+//@   ensures implies(result1 == nil, result0 != nil && fresh(result0))
+
+//@ func repeatString
+//@   props C11
+//@   requires lhs != nil && rhs != nil
+//@   ensures implies(result1 == nil, result0 != nil && fresh(result0))
+
+//@ func mergeObjects
+//@   props C04
+//@   nosafety
+//@   noframe
+//@   modifies lastEvalOut, prevEvalOut
+//@   requires d != nil && lhs != nil && rhs != nil
+//@   at applyAssignment: assert @one-assignment-per-right-hand-node-in-order {C04} arg3 == lhs && arg4 == nodeAt(results, iter()) && arg4.Tag != "!!merge" && arg5 == preferences
+//@   ensures @returns-the-node-it-was-given-to-fill {C04} implies(result1 == nil, result0 == lhs)
+//@   loop 1:
+//@     invariant @position (el == nil && iter() == len(results)) || (el != nil && elList(el) == results && elIdx(el) == iter())
+//@     invariant nodeList(results) && fresh(results)
+
+//@ func applyAssignment
+//@   props C04
+//@   nosafety
+//@   noframe
+//@   modifies lastEvalOut, prevEvalOut
+//@   requires d != nil && lhs != nil && rhs != nil
+//@   at GetMatchingNodes: assert @merges-into-the-left-node-only {C04} len(arg1.MatchingNodes) == 1 && nodeAt(arg1.MatchingNodes, 0) == lhs
+//@   at GetMatchingNodes: assert @operator-the-flags-select {C04} arg2.Operation.OperationType == ite(preferences.AppendArrays && rhs.Kind == SequenceNode, addAssignOpType, ite((!preferences.DeepMergeArrays && rhs.Kind == SequenceNode) || rhs.Kind == ScalarNode || rhs.Kind == AliasNode, assignOpType, assignAttributesOpType)) && !arg2.Operation.UpdateAssign
+//@   at GetMatchingNodes: assert @value-taken-from-the-right-node {C04} arg2.RHS != nil && arg2.RHS.Operation.OperationType == referenceOpType && arg2.RHS.Operation.CandidateNode == rhs && arg2.Operation.Preferences == iface(preferences.AssignPrefs)
+
+//@ func multiply$1
+//@   props C04
+//@   nosafety
+//@   noframe
+//@   modifies lastEvalOut, prevEvalOut
+//@   requires d != nil && lhs != nil && rhs != nil
+//@   at mergeObjects: assert @merge-fills-a-fresh-copy-of-the-left-operand {C04} fresh(arg2) && arg2 != lhs && arg2 != rhs && arg3 == rhs && !arg1.DontAutoCreate
+//@   ensures @null-on-the-right-is-the-identity {C04} implies(old(rhs.Tag) == "!!null", result1 == nil && result0 != nil && fresh(result0) && sameScalarAttrs(result0, lhs) && len(result0.Content) == len(lhs.Content))
